@@ -9,6 +9,8 @@ for every member function, in source order,
   <f>_let_<v>      initialiser of a local whose initialiser is a ?: expression
   <f>_call<k>_<g>  the integer argument(s) of the k-th call of another member (retrieve, append, ...)
   <f>_init_<m>     constructor initialiser of member m
+  <f>_tree         the statement tree of the body (review E-3): SAssert / SSet / SLet / SHavoc / SCall / SIf / SRet / SOther with
+                   the facts above at their place, so that branch structure, order and presence of statements are generated too
   toStringPiece_len_cast_bits / append1_size_bits  width (bits) of the signed integer type the length of
                    toStringPiece() / StringPiece::size() is cast to (review B-3), 0 = no narrowing
 all as Gallina functions (conditions: bool, the rest Z) over ONE record `obs` of NAMED observables
